@@ -280,6 +280,44 @@ def install_semantic(which=("C01", "C02", "C09", "C17")):
     if "C01" in which:
         Backend.simulate = simulate
 
+    # ---- C10: exact runs conditioned on mid-circuit outcomes (MEASURE gates only) follow the projected branch
+    base_sim = Backend.simulate
+
+    @functools.wraps(base_sim)
+    def simulate_c10(self, source_circuit, return_statevector=False, initial_statevector=None, desired_meas_result=None, save_mid_circuit_meas=False):
+        r = base_sim(self, source_circuit, return_statevector=return_statevector, initial_statevector=initial_statevector,
+                     desired_meas_result=desired_meas_result, save_mid_circuit_meas=save_mid_circuit_meas)
+        try:
+            if isinstance(source_circuit, Circuit) and type(self).__name__ == "CirqSimulator" and not getattr(self, "_noise_model", None) \
+                    and desired_meas_result is not None and self.n_shots is None and source_circuit.counts.get("CMEASURE", 0) == 0 \
+                    and 0 < source_circuit.width <= 8 and len(source_circuit._gates) <= 600:
+                import numbers
+                gl = []
+                for g in source_circuit._gates:
+                    if g.name == "MEASURE":
+                        gl.append(("MEASURE", list(g.target), None, ""))
+                    elif g.name in refsim.SUPPORTED and (g.name not in refsim.PARAM or (isinstance(g.parameter, numbers.Real) and not isinstance(g.parameter, bool))):
+                        gl.append((g.name, list(g.target), None if g.control is None else list(g.control), g.parameter))
+                    else:
+                        gl = None
+                        break
+                init = None if initial_statevector is None else np.asarray(initial_statevector, dtype=complex).reshape(-1)
+                if gl is not None and (init is None or init.size == 2 ** source_circuit.width):
+                    n = source_circuit.width
+                    st, prob = refsim.run_branch(gl, n, desired_meas_result, init)
+                    if st is not None and prob > 1e-9:
+                        ef = refsim.freq_dict(st, n, threshold=0.0)
+                        freqs = {k: float(v) for k, v in r[0].items()}
+                        ok = all(abs(freqs.get(k, 0.0) - v) < 1e-6 for k, v in ef.items()) and all(len(k) == n for k in freqs)
+                        sp = getattr(source_circuit, "success_probabilities", None) or getattr(self, "_success_probability", None)
+                        _record("conditioned_exact_branch", ok, gates=repr(gl)[:800], desired=desired_meas_result, got=repr(freqs)[:400],
+                                expected=repr({k: v for k, v in ef.items() if v > 1e-9})[:400], branch_probability=prob)
+        except Exception as e:
+            _record("monitor_error:" + type(e).__name__ + ":" + str(e)[:60], True)
+        return r
+    if "C10" in which:
+        Backend.simulate = simulate_c10
+
     orig_exp = Backend.get_expectation_value
     depth = [0]
 
